@@ -46,7 +46,7 @@ ASSUMPTIONS = [
     "age == expiration exactly is unspecified; expiration=0 and unhashable arguments are not generated",
     "identity-hashed receivers in the base workload; ==-equal distinct receivers run as a separate family",
 ]
-MINIMUMS = {"monitor:required-hit": 20000, "monitor:right-key": 20000, "monitor:capacity": 20000, "evictions_forced": 2000, "expiry_boundary_crossed": 2000, "required_hit_after_reorder": 300, "histories_with_hash_colliding_keys": 100, "recursive_histories": 100, "expired_while_in_flight": 10, "calls_from_inside_scopes": 6, "calls_after_a_cancelled_invocation": 3, "same_key_reentrant_histories": 2, "calls_of_callables_with_another_advertised_signature": 4}
+MINIMUMS = {"monitor:required-hit": 20000, "monitor:right-key": 20000, "monitor:capacity": 20000, "evictions_forced": 2000, "expiry_boundary_crossed": 2000, "required_hit_after_reorder": 300, "histories_with_hash_colliding_keys": 100, "recursive_histories": 100, "expired_while_in_flight": 10, "calls_from_inside_scopes": 6, "calls_after_a_cancelled_invocation": 3, "same_key_reentrant_histories": 2, "calls_of_callables_with_another_advertised_signature": 4, "expiring_histories_with_slow_synchronous_invocations": 100}
 JOBS = {"quick": 4, "thorough": 16}
 LEVEL_TEXT = (
     "All histories up to the tier's length (quick 5-6, thorough 7) over 3 typed-distinct keys and 2 dyadic clock advances are run for every "
@@ -132,13 +132,18 @@ def run_history(R: Recorder, case: dict[str, Any], verbose: bool = False) -> Non
     flavour, limit, exp, form, hist = case["flavour"], case["limit"], case["exp"], case["form"], case["hist"]
     family = case.get("receivers", "identity")
     clock = VClock()
-    inv = {"n": 0, "last": None, "fail_next": False}
+    inv = {"n": 0, "last": None, "fail_next": False, "work": 0.0}
     refs: list[weakref.ref[Result]] = []
     is_method = flavour.endswith("method")
     is_async = flavour.startswith("async")
 
     def produce(recv_name: str | None, args: tuple[Any, ...], kwargs: dict[str, Any]) -> Result:
         inv["n"] += 1
+        if inv["work"]:
+            # a synchronous function that takes its time (the clock moves on while it computes): its result - and the entry holding
+            # it - comes into being when it returns
+            clock.advance(inv["work"])
+            inv["work"] = 0.0
         if inv["fail_next"]:
             inv["fail_next"] = False
             exc = CallFailed(inv["n"])
@@ -174,7 +179,7 @@ def run_history(R: Recorder, case: dict[str, Any], verbose: bool = False) -> Non
 
     receivers = {n: Holder(n) for n in ("A", "B", "C")} if is_method else {}
     specs = [Spec(limit, exp, True), Spec(limit, exp, False)]
-    flags = {"evicted": False, "boundary": False, "reorder_hit": False}
+    flags = {"evicted": False, "boundary": False, "reorder_hit": False, "slow": False}
     fifo: dict[Any, None] = {}  # shadow FIFO cache: a required hit that FIFO would miss discriminates LRU from FIFO
     seen_keys: list[Any] = []
     verdicts: list[tuple[str, bool | None, dict[str, Any], str]] = []
@@ -254,6 +259,7 @@ def run_history(R: Recorder, case: dict[str, Any], verbose: bool = False) -> Non
                 continue
             _, recv, args, fail, *rest = op
             swap = bool(rest and rest[0])  # keyword form only: pass the keywords in the other order
+            inv["work"] = float(rest[1]) if len(rest) > 1 and rest[1] and not is_async else 0.0
             args = tuple(args)
             if fail:
                 inv["fail_next"] = True
@@ -273,6 +279,10 @@ def run_history(R: Recorder, case: dict[str, Any], verbose: bool = False) -> Non
             except CallFailed as exc:
                 outcome = ("raise", exc)
             inv["fail_next"] = False
+            if inv["work"]:
+                inv["work"] = 0.0
+            elif len(rest) > 1 and rest[1] and not is_async and inv["n"] > n0 and exp:
+                flags["slow"] = True
             key = (recv, typed(args), swap)  # another keyword order is another key as far as required hits go (unspecified across)
             judge(i, key, recv, args, outcome, inv["n"] > n0)
             del outcome
@@ -299,6 +309,8 @@ def run_history(R: Recorder, case: dict[str, Any], verbose: bool = False) -> Non
         R.count("expiry_boundary_crossed")
     if flags["reorder_hit"]:
         R.count("required_hit_after_reorder")
+    if flags["slow"]:
+        R.count("expiring_histories_with_slow_synchronous_invocations")
     R.count("operations", len(hist))
     if case.get("colliding"):
         R.count("histories_with_hash_colliding_keys")
@@ -765,6 +777,12 @@ def random_case(rng: random.Random) -> dict[str, Any]:
             if is_method and not cloned and recv == "A" and rng.random() < 0.3:
                 hist.append(["clone", "A", "D"])
                 cloned = True
+    wr = random.Random(len(hist) * 7919 + limit)
+    if not flavour.startswith("async") and exp and wr.random() < 0.5:
+        # some invocations of a synchronous function take time: the clock advances while the function runs
+        for op in hist:
+            if op[0] == "call" and wr.random() < 0.35:
+                op.append(wr.choice([0.125, 0.25, 0.5, 1.0]))
     if collide_pool:
         return {"flavour": flavour, "limit": limit, "exp": exp, "form": rng.choice(["pos", "kw"]), "hist": hist, "colliding": True}
     return {"flavour": flavour, "limit": limit, "exp": exp, "form": "kw" if twin_pool and rng.random() < 0.7 else rng.choice(["pos", "pos", "kw"]), "hist": hist}
